@@ -23,23 +23,23 @@ ASSUMPTIONS = [
     "velocities are used as pairwise-distinct labels when a VC speaks about 'which observation is which' (the constructor never branches on velocities)",
     "a non-finite input cell is a cell whose is-finite flag is false; all-non-finite input (constructor raises on min of empty) is an allowed exit",
     "np.linalg.inv by contract X.Y = I; reals for floats",
-    "bounds: n_epochs <= 3 (quick) / 4 (thorough; covariance <= 3)",
+    "bounds: n_epochs <= 3 (quick) / 5 (thorough; covariance <= 4)",
 ]
 
 
 def bounds(tier):
-    return {"n_epochs": [1, 3 if tier == "quick" else 4], "covariance_n": [1, 2 if tier == "quick" else 3], "clean": [True, False],
+    return {"n_epochs": [1, 3 if tier == "quick" else 5], "covariance_n": [1, 2 if tier == "quick" else 4], "clean": [True, False],
             "t_ref": ["default", "explicit", "False"], "ops": ["init", "copy", "slice", "ivar", "cov"]}
 
 
 def shapes(tier):
     out = []
-    nmax = 3 if tier == "quick" else 4
+    nmax = 3 if tier == "quick" else 5
     for nt in range(1, nmax + 1):
         for clean in (True, False):
             for tref in ("default", "explicit", "false"):
                 out.append({"kind": "1d", "nt": nt, "clean": clean, "tref": tref})
-    for nt in range(1, (2 if tier == "quick" else 3) + 1):
+    for nt in range(1, (2 if tier == "quick" else 4) + 1):
         for clean in (True, False):
             out.append({"kind": "cov", "nt": nt, "clean": clean, "tref": "default"})
     return out
